@@ -755,6 +755,11 @@ package gocql
 //@   requires ctx != nil && c.w != nil
 //@   assume ErrConnectionClosed != nil
 //@   before Write: arg0 == p
+// the write happens inside the critical section: semaphore acquired and not yet released
+//@   before Write: sent(c.semaphore) == 1 && recvd(c.semaphore) == 0
+//@   before SetWriteDeadline: sent(c.semaphore) == 1 && recvd(c.semaphore) == 0
+// and the semaphore is released exactly when it was taken
+//@   ensures recvd(c.semaphore) == sent(c.semaphore) && sent(c.semaphore) <= 1
 //@   ensures Write_calls <= 1 && (Write_calls == 1 ==> result0 == Write_ret0 && result1 == Write_ret1)
 //@   ensures Write_calls == 0 ==> result0 == 0
 //@   ensures result1 == nil ==> (Write_calls == 1 && Write_ret1 == nil) || (Err_calls == 1 && Err_ret0 == nil)
